@@ -8,6 +8,11 @@ mod bm {
     include!(concat!(env!("OUT_DIR"), "/atomic_bitmap_loom.rs"));
 }
 
+#[allow(dead_code, unused_imports, clippy::all)]
+mod ai {
+    include!(concat!(env!("OUT_DIR"), "/atomic_integer_loom.rs"));
+}
+
 use bm::AtomicBitmap;
 use report::{Ctx, Tier};
 use serde_json::json;
@@ -173,8 +178,71 @@ fn run_harness(ctx: &Ctx, name: &'static str, pages: usize, threads: Vec<Vec<Op>
         "preemption_bound": bound.map(|b| json!(b)).unwrap_or(json!("unbounded"))}));
 }
 
+/// Message passing through an AtomicInteger of the crate: data written before a store with
+/// `so` must be visible to a thread whose load with `lo` saw the stored value. With orderings
+/// that synchronise (release-or-stronger store, acquire-or-stronger load) loom reports a data race
+/// on the cell exactly when the implementation hands on something weaker than what was requested.
+macro_rules! message_passing {
+    ($ctx:expr, $A:ty, $name:expr) => {{
+        use ai::AtomicInteger;
+        use loom::sync::atomic::Ordering as O;
+        for (so, lo) in [(O::Release, O::Acquire), (O::SeqCst, O::SeqCst), (O::SeqCst, O::Acquire), (O::Release, O::SeqCst)] {
+            static N: AtomicU64 = AtomicU64::new(0);
+            N.store(0, Ordering::SeqCst);
+            let res = std::panic::catch_unwind(|| {
+                loom::model(move || {
+                    N.fetch_add(1, Ordering::Relaxed);
+                    let flag = loom::sync::Arc::new(<$A as AtomicInteger>::new(0));
+                    let data = loom::sync::Arc::new(loom::cell::UnsafeCell::new(0u32));
+                    let (f1, d1) = (flag.clone(), data.clone());
+                    let t = loom::thread::spawn(move || {
+                        // SAFETY: published through the flag below
+                        d1.with_mut(|p| unsafe { *p = 42 });
+                        AtomicInteger::store(&*f1, 1, so);
+                    });
+                    if AtomicInteger::load(&*flag, lo) == 1 {
+                        // SAFETY: the store that made the flag 1 was ordered after the write
+                        let v = data.with(|p| unsafe { *p });
+                        assert_eq!(v, 42);
+                    }
+                    t.join().unwrap();
+                });
+            });
+            let n = N.load(Ordering::SeqCst);
+            $ctx.add_traces(n);
+            $ctx.add_states(n);
+            $ctx.add_transitions(n);
+            if res.is_err() {
+                $ctx.fail(
+                    &format!("C06/loom/{}/ordering-weaker-than-requested", $name),
+                    &format!("message passing through {} with store({:?}) / load({:?}): loom found an execution in which the data written before the store is not ordered before the read after the load (the implementation used a weaker ordering than the one requested)", $name, so, lo),
+                    json!({"type": $name, "store": format!("{:?}", so), "load": format!("{:?}", lo), "engine": "loom"}),
+                );
+            }
+        }
+    }};
+}
+
+fn main_c06(tier: Tier) -> i32 {
+    let ctx = Ctx::new("C06", tier, "model_checking");
+    ctx.set_rule("loom (C11 memory model): src/atomic_integer.rs compiled from the current tree with loom's atomic types; message passing through AtomicInteger::store / load for six integer types x {Release/Acquire, SeqCst/SeqCst, SeqCst/Acquire, Release/SeqCst}: in every execution loom generates, the data written before the store is visible after a load that saw it. This decides 'with the requested ordering' as far as the acquire/release strength goes; loom does not distinguish a SeqCst access from an AcqRel one, so a SeqCst store carried out as Release is not detected.");
+    ctx.assume("loom's model of the C11 memory model (SeqCst accesses are treated like acquire/release accesses)");
+    message_passing!(ctx, loom::sync::atomic::AtomicU8, "AtomicU8");
+    message_passing!(ctx, loom::sync::atomic::AtomicU16, "AtomicU16");
+    message_passing!(ctx, loom::sync::atomic::AtomicU32, "AtomicU32");
+    message_passing!(ctx, loom::sync::atomic::AtomicU64, "AtomicU64");
+    message_passing!(ctx, loom::sync::atomic::AtomicUsize, "AtomicUsize");
+    message_passing!(ctx, loom::sync::atomic::AtomicI32, "AtomicI32");
+    ctx.set_exhaustive(false);
+    ctx.finish()
+}
+
 fn main() {
     let args: Vec<String> = std::env::args().collect();
+    if args.iter().any(|a| a == "C06") {
+        let tier = if args.iter().any(|a| a == "thorough") { Tier::Thorough } else { Tier::Quick };
+        std::process::exit(main_c06(tier));
+    }
     let tier = if args.iter().any(|a| a == "thorough") { Tier::Thorough } else { Tier::Quick };
     let ctx = Ctx::new("C08", tier, "model_checking");
     ctx.set_rule("loom (C11 memory model): AtomicBitmap compiled from the current tree with loom's atomics; every execution loom generates (all interleavings and all orderings permitted by the memory orders used) of small marker / harvester / clone harnesses on a 70-page bitmap; same per-page conservation oracle as the SC explorer, plus: a mark that saw (through a SeqCst flag) that the only fetch-and-clear had returned must be set at the end. states/transitions/traces = executions enumerated by loom.");
